@@ -23,5 +23,5 @@ Extraction "model.ml"
   move_str denotes play_tokens qvalue_b mating_moves
   aggression_score positional_score pawn_pusher_score Style.is_valid
   valid_b ep_retro material in_D consistent
-  premises_b cpremises_b refines_b key_move_b key_pos_b attack_pre_b good_pos_b inv_b invs_b
+  premises_b cpremises_b refines_b key_move_b key_pos_b attack_pre_b good_pos_b inv_b invs_b ep_ok_b invr_b
   N.of_nat N.to_nat Z.of_N Z.to_N Z.of_nat.
